@@ -119,6 +119,26 @@ static void paint(const char *kind, uint64_t seed, int x0, int y0, int w, int h,
       uint32_t c = pal[vh_rand() % n];
       for (y = by; y < by + bh && y < h; y++) for (x = bx; x < bx + bw && x < w; x++) setpx(x0 + x, y0 + y, c | TOP);
     }
+  } else if (!strcmp(kind, "tiles")) {        /* every T x T tile gets its own style; colours come from a
+                                                 small shared palette so that backgrounds/foregrounds repeat from
+                                                 tile to tile (encoder state across tiles) */
+    int T = (int)((b >> 4) > 0 ? (b >> 4) : 16), tx, ty;
+    for (ty = 0; ty < h; ty += T) for (tx = 0; tx < w; tx += T) {
+      int style = (int)(vh_rand() % 6);
+      uint32_t c0 = pal[vh_rand() % n], c1 = pal[vh_rand() % n];
+      for (y = ty; y < ty + T && y < h; y++) for (x = tx; x < tx + T && x < w; x++) {
+        uint32_t v;
+        switch (style) {
+          case 0: v = c0; break;                                         /* flat */
+          case 1: v = (vh_rand() % 4) ? c0 : c1; break;                  /* two colours, c0 prevalent */
+          case 2: v = (uint32_t)vh_rand() & m; break;                    /* noise -> raw tile */
+          case 3: v = ((x / 3 + y / 2) & 1) ? c0 : c1; break;            /* regular two-colour pattern */
+          case 4: v = pal[(x / 2 + y) % n]; break;                       /* many colours, structured */
+          default: v = (y & 1) ? c0 : pal[x % n]; break;                 /* runs + palette */
+        }
+        setpx(x0 + x, y0 + y, v | TOP);
+      }
+    }
   } else if (!strcmp(kind, "outlier")) {      /* flat with a few single pixels */
     int k, nb = (int)((b >> 4) > 0 ? (b >> 4) : 3);
     for (y = 0; y < h; y++) for (x = 0; x < w; x++) setpx(x0 + x, y0 + y, pal[0] | TOP);
@@ -207,7 +227,13 @@ int main(void) {
       puts("bad-op");
     } else if (!strcmp(tok[0], "client") && n == 1 && !have_client) {
       vh_connect_pre(scr, &conn, "RFB 003.008\n", 12);
-      if (vh_handshake_none(scr, &conn, 1) == 0) { have_client = 1; puts("ok"); } else puts("handshake-failed");
+      if (vh_handshake_none(scr, &conn, 1) == 0) {
+        rfbPixelFormat *f = &conn.cl->format;   /* = what ServerInit announced */
+        have_client = 1;
+        printf("fmtinfo %d %d %d %d %d %d %d %d %d %d\n", f->bitsPerPixel, f->depth, f->bigEndian ? 1 : 0,
+               f->trueColour ? 1 : 0, f->redMax, f->greenMax, f->blueMax, f->redShift, f->greenShift, f->blueShift);
+        puts("ok");
+      } else puts("handshake-failed");
     } else if (!strcmp(tok[0], "sraw") && n == 2) {
       want_sraw = atoi(tok[1]); puts("ok");
     } else if (!strcmp(tok[0], "paint") && n == 9) {
